@@ -66,3 +66,63 @@ Proof. exact @callgraph_edges_struct. Qed.
 
 Print Assumptions C05_callgraph_edges.
 Print Assumptions C05_callgraph_edges_structured.
+
+(* ------------------------------------------------------------------------------------------------------------
+   Extension (CFG construction regenerated): theorems from Lemmas/CfgGenLemmas.v about Gen/CfgGen.v, the
+   translation of parse_teal.py's first/second pass, create_bb, fourth pass, identify_subroutine_blocks and
+   the pruning of unreachable blocks *)
+From Coq Require Import String List NArith ZArith Bool Arith.
+From Tealer Require Import Tables Syntax Parse Cfg KeysGen CfgGen CfgLemmas SubLemmas CfgGenLemmas.
+
+(* regenerated identify_subroutine_blocks computes exactly the blocks reachable from the entry, without duplicates *)
+Theorem C05_identify_gen_reach :
+      forall (p : prog) (bs : list block) (e : nat) (r : list nat),
+       build_blocks p = Some bs ->
+       e < Datatypes.length bs ->
+       identify_subroutine_blocks_gen (S (Datatypes.length bs)) e bs = Some (Some r) ->
+       (forall x : nat, In x r <-> Reach bs e x) /\ NoDup r.
+Proof. exact @identify_subroutine_blocks_gen_reach. Qed.
+
+(* on the regenerated block graph *)
+Theorem C05_cfg_gen_identify :
+      forall (p : prog) (bh : block_heap) (e : nat),
+       build_gen p = Some bh ->
+       e < Datatypes.length bh ->
+       identify_subroutine_blocks_gen (S (Datatypes.length bh)) e bh =
+       Some (Some (identify_subroutine_blocks bh e)) /\
+       (forall x : nat, In x (identify_subroutine_blocks bh e) <-> Reach bh e x) /\
+       NoDup (identify_subroutine_blocks bh e).
+Proof. exact @build_gen_identify. Qed.
+
+(* regenerated pruning agrees with parse_teal: retained instructions and retained blocks *)
+Theorem C05_cfg_gen_prune_parse_teal :
+      forall (p : prog) (t : teal),
+       parse_teal p = Ok t ->
+       exists (ih : ins_heap) (bh : block_heap) (subs0 : list sub_row) (bh' : block_heap) 
+       (ih' : ins_heap),
+         passes_gen p = Some ih /\
+         build_gen p = Some bh /\
+         prune_unreachable_gen (seq 0 (Datatypes.length bh)) (reachable_of bh subs0)
+           (seq 0 (Datatypes.length p)) bh (bb_assign_bs p ih) = Some (t_retained_ins t, bh', ih') /\
+         filter (alive (reachable_of bh subs0)) bh' = t_blocks t.
+Proof. exact @build_gen_prune_parse_teal. Qed.
+
+(* regenerated pruning computes prune_spec and keeps the prev/next mirror invariant *)
+Theorem C05_prune_gen_eq :
+      forall (reach : list nat) (bs : list block) (ih : list insobj),
+       wf_blocks bs ->
+       NoDup (concat (map b_ins bs)) ->
+       (forall (n : nat) (b : block), nth_error bs n = Some b -> b_ins b <> nil) ->
+       (forall (n : nat) (b : block) (k : nat),
+        nth_error bs n = Some b -> In k (b_ins b) -> k < Datatypes.length ih) ->
+       ih_mirror ih ->
+       exists ih' : ins_heap,
+         prune_unreachable_gen (seq 0 (Datatypes.length bs)) reach (concat (map b_ins bs)) bs ih =
+         Some (concat (map b_ins (filter (alive reach) bs)), prune_spec reach bs, ih') /\
+         ih_mirror ih' /\ Datatypes.length ih' = Datatypes.length ih.
+Proof. exact @prune_unreachable_gen_eq. Qed.
+
+Print Assumptions C05_identify_gen_reach.
+Print Assumptions C05_cfg_gen_identify.
+Print Assumptions C05_cfg_gen_prune_parse_teal.
+Print Assumptions C05_prune_gen_eq.
